@@ -273,3 +273,18 @@ SPECS["C06"] = dict(
              params=dict(quick=dict(volumes=2), thorough=dict(volumes=3)), witnesses=["complete", "truncated"]),
     ],
 )
+
+C08_H = ["arvados/c08_fs.go", "arvados/fskeep.go"]
+SPECS["C08"] = dict(
+    level="model_checking",
+    outside="operation sequences longer than 2 (quick) / 3 (thorough) steps per file; block limits above 3 bytes (incl. the 64 MiB production limit); several handles per file; directory renames onto existing names (unspecified by the rule list); getternode / site-filesystem nodes",
+    assumptions=["fake Keep backend (blocks named by a counter; the filesystem never verifies hashes); contents written are symbolic bytes", "model: one byte array per file, POSIX semantics (a zero-length write has no effect)"],
+    runs=[
+        dict(name="file", pkg="sdk/go/arvados", harness=C08_H, entry="GosymH_C08_file",
+             params=dict(quick=dict(ops=2, maxblock=2, maxoff=4, maxlen=3, preloaded=0), thorough=dict(ops=3, maxblock=3, maxoff=4, maxlen=3, preloaded=0)), witnesses=["done", "empty-write-beyond-eof"]),
+        dict(name="file-preloaded", pkg="sdk/go/arvados", harness=C08_H, entry="GosymH_C08_file",
+             params=dict(quick=dict(ops=2, maxblock=2, maxoff=4, maxlen=2, preloaded=1), thorough=dict(ops=2, maxblock=3, maxoff=5, maxlen=3, preloaded=1)), witnesses=["done"]),
+        dict(name="flags", pkg="sdk/go/arvados", harness=C08_H, entry="GosymH_C08_flags", witnesses=["done"]),
+        dict(name="dirs", pkg="sdk/go/arvados", harness=C08_H, entry="GosymH_C08_dirs", witnesses=["done"]),
+    ],
+)
